@@ -457,12 +457,18 @@ static void mpi_case(gcry_mpi_t m, const std::string &cid, bool nontrivial)
 	size_t sum = 0;
 	L::PacketMPIEncode(m, o, sum);
 	RO.emit("pgp.mpi", { mpihex(m) }, hex(o) + ":" + str(sum), cid);
-	tmcg_openpgp_secure_octets_t so;
-	size_t sum2 = 0;
-	L::PacketMPIEncode(m, so, sum2);
-	R->ok(nontrivial);
-	if (hex(so) != hex(o) || sum2 != sum)
-		R->viol("mpi/secure-overload-differs", "secure and plain PacketMPIEncode differ for " + mpihex(m), cid);
+	// the secure-memory overloads only for sizes that fit libgcrypt's secure pool comfortably (TMCG_SecureAlloc returns NULL
+	// instead of throwing when the pool is exhausted; that is outside this property)
+	bool secure_ok = gcry_mpi_get_nbits(m) <= 8192;
+	if (secure_ok)
+	{
+		tmcg_openpgp_secure_octets_t so;
+		size_t sum2 = 0;
+		L::PacketMPIEncode(m, so, sum2);
+		R->ok(nontrivial);
+		if (hex(so) != hex(o) || sum2 != sum)
+			R->viol("mpi/secure-overload-differs", "secure and plain PacketMPIEncode differ for " + mpihex(m), cid);
+	}
 	// decode(encode)
 	gcry_mpi_t back = gcry_mpi_new(8);
 	size_t dsum = 0;
@@ -490,12 +496,16 @@ static void mpi_case(gcry_mpi_t m, const std::string &cid, bool nontrivial)
 			R->ok(true);
 			if (c2 != 2 + nnb || gcry_mpi_cmp(v, m))
 				R->viol("mpi/decode-leading-zeros", "MPI " + hex(e) + " decodes to " + mpihex(v) + " consumed " + str(c2) + ", want " + mpihex(m) + " consumed " + str(2 + nnb), cid);
-			tmcg_openpgp_secure_octets_t se(e.begin(), e.end());
-			gcry_mpi_t v2 = gcry_mpi_new(8);
-			size_t c3 = L::PacketMPIDecode(se, v2);
-			if (c3 != c2 || gcry_mpi_cmp(v2, v))
-				R->viol("mpi/secure-overload-differs", "secure and plain PacketMPIDecode differ for " + hex(e), cid);
-			gcry_mpi_release(v), gcry_mpi_release(v2);
+			if (secure_ok)
+			{
+				tmcg_openpgp_secure_octets_t se(e.begin(), e.end());
+				gcry_mpi_t v2 = gcry_mpi_new(8);
+				size_t c3 = L::PacketMPIDecode(se, v2);
+				if (c3 != c2 || gcry_mpi_cmp(v2, v))
+					R->viol("mpi/secure-overload-differs", "secure and plain PacketMPIDecode differ for " + hex(e), cid);
+				gcry_mpi_release(v2);
+			}
+			gcry_mpi_release(v);
 		}
 		// truncated encodings must be refused
 		for (size_t cut = 0; cut < o.size() && cut < 4; cut++)
